@@ -1,5 +1,6 @@
 import RexModel.Async.Machine
 import RexModel.Async.Guard
+import RexModel.Async.Ownership
 
 /-! # C02 — simulated-clock episodes are deterministic across thread schedules and speed
 
@@ -49,6 +50,21 @@ theorem C02_message_records_schedule_independent (cfg : Cfg T) (c : Nat) {σ₁ 
 theorem C02_nbCount_needed_prefix (cc : ConnCfg T) (tsStep : T) (pre rest : List (Val T))
     (h : ∃ v ∈ pre, isFuture tsStep v = true) :
     nbCount cc tsStep (pre ++ rest) = nbCount cc tsStep pre := nbCount_needed_prefix cc tsStep pre rest h
+
+/-- **The source obeys the machine's queue discipline**: every operation of every handler on a deque (regenerated from the current
+source into `Rex.Gen.Ownership`) is an append by a producer of that queue or a pop / read by its consumer, for the producers and
+consumers of the machine's own tables (`prodOf_tag_*`, `consOf_tag_*`) — nobody but the consumer looks at a queue, so what a handler
+does cannot depend on how far another thread has got beyond the prefix it needs. -/
+theorem C02_source_queue_discipline :
+    (Rex.Gen.Ownership.node_queue_ops ++ Rex.Gen.Ownership.conn_queue_ops).all opOk = true ∧
+    Rex.Gen.Ownership.node_queue_ops.length + Rex.Gen.Ownership.conn_queue_ops.length ≥ 40 := by decide
+
+/-- … and those tables are the machine's: whoever the machine lets append to (pop from) a queue is in the table -/
+theorem C02_machine_ownership (cfg : Cfg T) :
+    (∀ n k, (prodOf cfg (.node n k)).tag ∈ prodTags (.inl k)) ∧ (∀ c k, (prodOf cfg (.conn c k)).tag ∈ prodTags (.inr k)) ∧
+    (∀ n k r, consOf cfg (.node n k) = some r → r.tag ∈ consTags (.inl k)) ∧
+    (∀ c k r, consOf cfg (.conn c k) = some r → r.tag ∈ consTags (.inr k)) :=
+  ⟨prodOf_tag_node cfg, prodOf_tag_conn cfg, consOf_tag_node cfg, consOf_tag_conn cfg⟩
 
 /-- non-vacuity: the initial state of any configuration admits the empty run, and a node with a token can fire -/
 example (cfg : Cfg T) : Run (machine cfg).toNet.sys (initState cfg) [] (initState cfg) := .nil _
